@@ -136,7 +136,8 @@ Definition gen_concat_items_shape : list (string * string) :=
     (""%string, "return cv.Interface().(T),nil"%string) ].
 
 (* the stream entry points compose.concatStreamReader[T] (compose/stream_concat.go) and
-   schema.ConcatMessageStream: the drain loop (for { chunk, err := sr.Recv() ... }: io.EOF leaves the loop,
+   schema.ConcatMessageStream, and schema.concatMessageArray (the concat function registered for []*Message:
+   position-wise, nil entries skipped, a lone entry unmerged): the drain loop (for { chunk, err := sr.Recv() ... }: io.EOF leaves the loop,
    another error is returned at once), the empty and the single-chunk case, the call of the concatenation
    function (a parameter: internal.ConcatItems[T] / ConcatMessages) *)
 Section Stream.
@@ -176,6 +177,41 @@ Definition gen_ConcatMessageStream (s : list (sitem X)) : res X :=
     else if (Nat.eqb (List.length msgs) 1) then (cdo (g_nth msgs 0) (fun x_1 =>
 Return (Ok x_1)))
     else Return (concat_items msgs))).
+
+(* nil test of a chunk (a *Message) *)
+Variable is_nil_x : X -> bool.
+
+Definition gen_concatMessageArray (mas : list (list X)) : res (list X) :=
+  crun (S := unit) (
+    cdo (g_nth mas 0) (fun x_1 =>
+let arrayLen := (List.length x_1) in
+    let ret := (repeat zero arrayLen) in
+    let slicesToConcat := (repeat (@nil X) arrayLen) in
+    cbind (cfold (fun slicesToConcat ma =>
+        if (negb (Nat.eqb (List.length ma) arrayLen)) then (Return (Err E_LEN))
+        else cbind (cfold (fun slicesToConcat i =>
+            cdo (g_nth ma i) (fun m =>
+            cbind (if (negb (is_nil_x m)) then (cdo (g_nth slicesToConcat i) (fun x_3 =>
+cdo (g_set slicesToConcat i (x_3 ++ [m])) (fun slicesToConcat =>
+              Next slicesToConcat)))
+              else (Next slicesToConcat)) (fun slicesToConcat =>
+            Next slicesToConcat)))
+          (seq 0 (arrayLen - 0)) slicesToConcat) (fun slicesToConcat =>
+        Next slicesToConcat))
+      mas slicesToConcat) (fun slicesToConcat =>
+    cbind (cfold (fun ret '(i, slice) =>
+        cbind (if (Nat.eqb (List.length slice) 0) then (cdo (g_set ret i zero) (fun ret =>
+          Next ret))
+          else (cbind (if (Nat.eqb (List.length slice) 1) then (cdo (g_nth slice 0) (fun x_4 =>
+cdo (g_set ret i x_4) (fun ret =>
+            Next ret)))
+            else (cdo (concat_items slice) (fun cm =>
+            cdo (g_set ret i cm) (fun ret =>
+            Next ret)))) (fun ret =>
+          Next ret))) (fun ret =>
+        Next ret))
+      (enumerate slicesToConcat) ret) (fun ret =>
+    Return (Ok ret))))).
 
 End Stream.
 
